@@ -36,7 +36,7 @@ func casRace(c *Ctx, prop string) {
 // loadQuiescence: Registry.LoadOutputs with one blob missing under every schedule with a bounded number
 // of deviations; when it returns, none of its loaders may still be running.
 func loadQuiescence(c *Ctx, prop string, only ...string) {
-	ov := schedOverlay(c, "sched-outorder", nil, []string{"outorder"})
+	ov := schedOverlay(c, "sched-outorder", []string{"internal/output/registry.go", "internal/maps/mutex_map.go"}, []string{"outorder"})
 	if ov == nil {
 		return
 	}
@@ -66,7 +66,7 @@ func loadQuiescence(c *Ctx, prop string, only ...string) {
 }
 
 func outOrder(c *Ctx, prop string) {
-	ov := schedOverlay(c, "sched-outorder", nil, []string{"outorder"})
+	ov := schedOverlay(c, "sched-outorder", []string{"internal/output/registry.go", "internal/maps/mutex_map.go"}, []string{"outorder"})
 	if ov == nil {
 		return
 	}
